@@ -48,6 +48,8 @@ type Case struct {
 	Top   []Node `json:"top"` // top-level boxes after ftyp
 	Brand string `json:"brand"`
 	Mal   bool   `json:"malformed,omitempty"`
+	// compatible brands of the ftyp box (nil = the major brand and "isom")
+	Compat []string `json:"compatible_brands,omitempty"`
 }
 
 // placed is a node after layout.
@@ -70,7 +72,11 @@ func code(off int) byte { // position-coded payload byte
 }
 
 func (c Case) layout() ([]byte, []*placed, []*placed) {
-	ft := gen.Ftyp(c.Brand, 1, c.Brand, "isom").Serialise(0)
+	compat := c.Compat
+	if compat == nil {
+		compat = []string{c.Brand, "isom"}
+	}
+	ft := gen.Ftyp(c.Brand, 1, compat...).Serialise(0)
 	out := append([]byte{}, ft...)
 	var all, tops []*placed
 	var emit func(n *Node, parent *placed, depth, topIndex int) *placed
@@ -239,6 +245,9 @@ func eval(c Case) (f *pbt.Fail) {
 		if err := r.ReadFTYP(); err != nil {
 			return pbt.Failf("ftyp", "ReadFTYP failed on a well-formed ftyp box: %v", err)
 		}
+		if got := pos(); got != tops[0].start {
+			return pbt.Failf("position-ftyp", "after ReadFTYP (ftyp with %d compatible brands) the reader stands at offset %d; the first top-level box starts at %d", len(c.Compat), got, tops[0].start)
+		}
 		var err error
 		done := 0
 		for i := 0; i < k; i++ {
@@ -253,16 +262,11 @@ func eval(c Case) (f *pbt.Fail) {
 				return pbt.Failf("callback-stream", "%s callback: the %d bytes its reader yielded are not the file's bytes [%d,%d) (stream advanced by %d)", cl.kind, len(cl.data), cl.start, cl.start+len(cl.data), cl.end-cl.start)
 			}
 			in := innermost(all, cl.start)
+			// no read may pass the end any enclosing box declares (honest boxes declare their real end;
+			// top-level boxes are always honest, so the walk ends at a real boundary)
 			for a := in; a != nil; a = a.parent {
-				lim := a.end
-				if a.declaredEnd < lim {
-					lim = a.declaredEnd
-				}
-				if a.parent == nil {
-					lim = a.end
-				}
-				if cl.end > lim && a != in || a == in && cl.end > max(a.end, a.declaredEnd) {
-					return pbt.Failf("escape:"+cl.kind, "%s callback inside box %q [%d,%d) (declared end %d) read up to offset %d, past the end %d of enclosing box %q", cl.kind, in.n.Type, in.start, in.end, in.declaredEnd, cl.end, lim, a.n.Type)
+				if cl.end > a.declaredEnd {
+					return pbt.Failf("escape:"+cl.kind, "%s callback inside box %q [%d,%d) (declared end %d) read up to offset %d, past the declared end %d of enclosing box %q [%d,%d)", cl.kind, in.n.Type, in.start, in.end, in.declaredEnd, cl.end, a.declaredEnd, a.n.Type, a.start, a.end)
 				}
 			}
 		}
@@ -448,6 +452,12 @@ func countNodes(ns []Node) (n, depth int, cb int) {
 
 func genWell(rt *rapid.T) Case {
 	c := Case{Brand: rapid.SampledFrom([]string{"crx ", "crx ", "heic", "avif"}).Draw(rt, "brand")}
+	if gen.Chance(rt, "brands?", 0.4) {
+		c.Compat = rapid.SliceOfN(rapid.SampledFrom([]string{"crx ", "isom", "mif1", "heic", "avif", "miaf", "MA1B", "msf1", "hevc", "zzzz", "mp41"}), 0, 16).Draw(rt, "compat")
+		if c.Compat == nil {
+			c.Compat = []string{}
+		}
+	}
 	if gen.Chance(rt, "camera-layout?", 0.3) {
 		c.Brand = "crx "
 		moov := genTop(rt, c.Brand)
@@ -498,12 +508,30 @@ func genMal(rt *rapid.T) Case {
 		c.Top = append([]Node{{Type: "moov", Kids: []Node{{Type: "uuid", Role: "canon", Kids: []Node{cmtNode(rt, 1)}}}}}, c.Top...)
 		walk(c.Top[:1], true)
 	}
+	lie := func(v *Node) {
+		if rapid.Bool().Draw(rt, "small") {
+			d := int64(rapid.SampledFrom([]int{0, 2, 3, 4, 7}).Draw(rt, "declared"))
+			v.Declared = &d
+		} else {
+			v.Over = int64(rapid.SampledFrom([]int{1, 2, 7, 8, 9, 100, 4096, 65536, 1 << 20, 1<<31 - 40000}).Draw(rt, "over"))
+		}
+	}
 	v := cands[rapid.IntRange(0, len(cands)-1).Draw(rt, "victim")]
-	if rapid.Bool().Draw(rt, "small") {
-		d := int64(rapid.SampledFrom([]int{0, 2, 3, 4, 7}).Draw(rt, "declared"))
-		v.Declared = &d
-	} else {
-		v.Over = int64(rapid.SampledFrom([]int{1, 2, 7, 8, 9, 100, 4096, 65536, 1 << 20, 1<<31 - 40000}).Draw(rt, "over"))
+	lie(v)
+	// often a whole chain lies: the victim's children and grandchildren overstate too ("whatever sizes its children declare")
+	if rapid.Bool().Draw(rt, "chain") {
+		for lvl, cur := 0, v; lvl < 3 && len(cur.Kids) > 0; lvl++ {
+			// prefer a callback-bearing child
+			k := &cur.Kids[rapid.IntRange(0, len(cur.Kids)-1).Draw(rt, "kid")]
+			for i := range cur.Kids {
+				if r := cur.Kids[i].Role; (r == "cmt1" || r == "cmt2" || r == "cmt3" || r == "cmt4" || r == "prvw" || r == "canon") && rapid.Bool().Draw(rt, "prefer") {
+					k = &cur.Kids[i]
+				}
+			}
+			k.Over = int64(rapid.SampledFrom([]int{8, 64, 100, 4096, 65536, 1 << 20}).Draw(rt, "kidover"))
+			k.Declared = nil
+			cur = k
+		}
 	}
 	return c
 }
@@ -516,9 +544,9 @@ func init() { pbt.Register(chk); pbt.Register(chkMal) }
 func TestProp(t *testing.T) {
 	defer rec.MustWrite()
 	rec.Rule("box trees: ftyp (crx / heic / avif) followed by 1-7 top-level boxes from {moov[before*, uuid-canon[CNCV, CCTP?, CTBO, CMT1..4 with first-IFD offsets 8..100 and both byte orders, opaque boxes between, a last child of 8..15 bytes], after*], uuid-xpacket (0..9000 bytes), uuid-preview[PRVW (0..10000 bytes)], meta[hdlr, pitm, opaque*], mdat, opaque / nested unknown containers to depth 5}, 32- and 64-bit size headers, full-box headers; " +
-		"every opaque payload byte is a function of its absolute offset. For k = 1..n the file is read with ReadFTYP + k x ReadMetadata through a caller-supplied bufio.Reader and recording callbacks that io.ReadAll their reader. " +
+		"the ftyp box lists 0..16 compatible brands; every opaque payload byte is a function of its absolute offset. For k = 1..n the file is read with ReadFTYP + k x ReadMetadata through a caller-supplied bufio.Reader and recording callbacks that io.ReadAll their reader. " +
 		"oracle (computed by the writer): error nil and stream position == start of top-level box k+1 after every step; callbacks exactly the CMT/xpacket/PRVW boxes in file order; the bytes each callback's reader yields are exactly the file's bytes of that payload (CMT: from the first IFD to the end of the box); header fields (byte order, first IFD, length, directory type CMT1 root / CMT2 Exif / CMT3 maker note / CMT4 GPS; PRVW size and dimensions); PreviewCR3 on camera-layout files returns the PRVW payload. " +
-		"malformed variant: one non-top-level box declares real size + {1..2^31} or a size < 8: whatever a callback reads must be file bytes inside every enclosing box, and a nil return must leave the reader at the next top-level box. non-trivial = depth >= 3 with >= 1 callback box, or a malformed child; distinct by file bytes")
+		"malformed variant: one non-top-level box, and often a chain of its descendants, declare real size + {1..2^31} or a size < 8: whatever a callback reads must be file bytes inside every enclosing box, and a nil return must leave the reader at the next top-level box. non-trivial = depth >= 3 with >= 1 callback box, or a malformed child; distinct by file bytes")
 	rec.Assume("the last top-level box is an mdat of >= 64 bytes (the reader peeks 16 bytes for a box header)")
 	pbt.RegressDir(t, rec)
 	if !pbt.Run(t, rec, chk, rec.Env.Pick(3000, 120000), 1) {
